@@ -76,6 +76,9 @@ func NewProxy() *Proxy {
 			Proxy:                 http.ProxyFromEnvironment,
 			TLSHandshakeTimeout:   10 * time.Second,
 			ExpectContinueTimeout: time.Second,
+			// The proxy relays bodies as they are: without this the transport asks
+			// for gzip on its own and hands back a decoded body of unknown length.
+			DisableCompression: true,
 		},
 		timeout: 5 * time.Minute,
 		closing: make(chan bool),
